@@ -129,7 +129,7 @@ Qed.
 
 
 (* ---- clear callbacks and the exit callback ---- *)
-Definition k_ok (s : sys) (p : pc) : Prop :=
+Definition k_ok (C : config) (s : sys) (p : pc) : Prop :=
   match p with
   | ARel PhClear id | SRel PhClear (Some id) =>
     reg s = g_relclear s ++ id :: clr s /\ exitdr s = false /\ g_late s = []
@@ -137,12 +137,14 @@ Definition k_ok (s : sys) (p : pc) : Prop :=
   | AXLock => reg s = g_relclear s /\ exitdr s = false /\ g_late s = []
   | SRel PhExit _ | ARel PhExit _ => reg s = g_relclear s /\ exitdr s = true /\ g_late s = []
   | AXUnlock => reg s = g_relclear s /\ exitdr s = true /\ g_late s = [] /\ queue s = []
-  | SRet | AFin | Done => reg s = g_relclear s /\ exitdr s = true /\ queue s = g_late s
+  | SRet | AFin | Done =>
+    (* a bare loop has no hand-over queue and no registered socket contexts to account for *)
+    c_bare C = false -> reg s = g_relclear s /\ exitdr s = true /\ queue s = g_late s
   | _ => g_relclear s = [] /\ exitdr s = false /\ g_late s = []
   end.
 
 Definition KInv (C : config) (s : sys) : Prop :=
-  k_ok s (thr s (c_loop C)) /\
+  k_ok C s (thr s (c_loop C)) /\
   (returned s = true -> thr s (c_loop C) = AFin \/ thr s (c_loop C) = Done).
 
 Lemma init_kinv C : KInv C init.
@@ -176,6 +178,7 @@ Proof.
       try (exfalso; assert (mtx s = Some (c_loop C)) by (apply HhL; reflexivity); congruence);
       try (destruct Hk as (K1 & K2 & K3); rewrite K2; auto; fail);
       try contradiction.
+    all: try (intros Hb; specialize (Hk Hb)).
     all: destruct Hk as (K1 & K2 & K3); rewrite K2; repeat split; auto; congruence.
   - destruct Hk as (K1 & K2 & K3). simpl in Heql0. rewrite Heql0 in K1. split; [|intros Hx; specialize (Hr Hx); destruct Hr; congruence].
     simpl. repeat split; auto. rewrite <- app_assoc. exact K1.
@@ -207,8 +210,8 @@ Theorem handover_once_all C sched : c_fix_add C = true ->
   g_leaked s = [] /\
   (* once run() has returned, every registered context has been released by a clear callback,
      each exactly once and in order, and what is still queued was enqueued after the exit
-     callback had taken the handle's mutex *)
-  (returned s = true -> g_relclear s = reg s /\ queue s = g_late s).
+     callback had taken the handle's mutex (a bare loop has no handle and no hand-over) *)
+  (returned s = true -> c_bare C = false -> g_relclear s = reg s /\ queue s = g_late s).
 Proof.
   intros Hfix s. pose proof (hinv_all C sched Hfix) as H. fold s in H.
   destruct (kinv_all C sched) as [Hk Hr]. fold s in Hk, Hr.
@@ -217,20 +220,20 @@ Proof.
     apply (count_occ_In Nat.eq_dec) in Hx. unfold places. lia.
   - intros x Hx. pose proof (h_count _ _ H x) as Hc.
     apply (count_occ_not_In Nat.eq_dec) in Hx. unfold places. lia.
-  - intros Hret. destruct (Hr Hret) as [E|E]; rewrite E in Hk; simpl in Hk;
-      destruct Hk as (K1 & K2 & K3); auto.
+  - intros Hret Hb. destruct (Hr Hret) as [E|E]; rewrite E in Hk; simpl in Hk;
+      destruct (Hk Hb) as (K1 & K2 & K3); auto.
 Qed.
 
 (* hence, after run() has returned, every context handed over has been released exactly once -
    by the wake callback, a clear callback or the exit callback - or is a late one still queued *)
 Corollary handover_released_once C sched : c_fix_add C = true ->
   let s := exec sys (step C) init sched in
-  returned s = true ->
+  returned s = true -> c_bare C = false ->
   forall x, In x (g_enq s) ->
   cnt_of (g_relfail s ++ g_relclear s ++ g_relexit s) x + cnt_of (g_late s) x = 1.
 Proof.
-  intros Hfix s Hret x Hx. destruct (handover_once_all C sched Hfix) as (_ & H1 & _ & _ & H2). fold s in H1, H2.
-  destruct (H2 Hret) as [E1 E2]. specialize (H1 x Hx). unfold places in H1.
+  intros Hfix s Hret Hb x Hx. destruct (handover_once_all C sched Hfix) as (_ & H1 & _ & _ & H2). fold s in H1, H2.
+  destruct (H2 Hret Hb) as [E1 E2]. specialize (H1 x Hx). unfold places in H1.
   rewrite !count_occ_app. rewrite E1, <- E2. lia.
 Qed.
 
@@ -238,9 +241,7 @@ Qed.
    context cannot be registered; it is dequeued and announced all the same and ends up in none of
    the places (neither registered nor released nor queued) although run() has returned. *)
 Definition cfg_add_failure (fa : bool) : config :=
-  {| c_be := BPoll; c_n := 2; c_loop := 1; c_cap := 1;
-     c_scr := fun t => match t with 0 => [OpH; OpH; OpX] | _ => [] end;
-     c_fix_exit := true; c_fix_add := fa |}.
+  mk_cfg BPoll 2 1 1 (fun t => match t with 0 => [OpH; OpH; OpX] | _ => [] end) true fa.
 Definition sched_add_failure : list (nat * nat) := repeat (0, 0) 24 ++ repeat (1, 0) 30.
 
 Example handover_once_refuted :
